@@ -5,4 +5,6 @@ import NdnProofs.Props.C11
 #print axioms Ndn.C11.matchIter_sound
 #print axioms Ndn.C11.matchTree_iff_Sem
 #print axioms Ndn.C11.compile_correct_partial
+#print axioms Ndn.C11.compiled_match_iff
+#print axioms Ndn.C11.compiled_vdet
 #print axioms Ndn.C11.matchNames_spec
